@@ -17,6 +17,7 @@ func init() {
 			"LP-ERRPATH: stage failures become __error__ labels with the line kept",
 			"PF-ALLOC: sizes of make([]T, ..) derive from len/cap of existing data, never from a query parameter",
 			"PF-NILCLOSE; ERR-PROP of the open chain (a swallowed failure leaves a nil reader that is dereferenced later)",
+			"the distinct rule (the stage works on allocated state)",
 		},
 		NotDecided: []string{
 			"termination of loops (lexer scanners, IPLineFilter, stepper – the last relies on C16's positivity for CLI callers)",
